@@ -1,6 +1,26 @@
 HOOK_COMMITS = ["02bc05e"]
 NOT_APPLICABLE = {}
 TEXT = {
+ "C07": {
+  "text": "Kernel-checked refinement: the rollback overlay that Get(X) folds from the stored undo patches, laid over the "
+          "frontier, equals the store as of X for every key and every sequence of later commits (view_reconstructs), the "
+          "byte-level tombstone/marker encoding refines the logical level (hist_get_refines, overlay_refines, apply_refines). "
+          "The hand-written model of ldbManager and the view tree is tied to the code by the vdb stream (every read of every "
+          "operation sequence compared) and a shadow-map monitor that states the property directly.",
+  "design_ref": "§3 C07",
+  "note": "Sequential model; caches not modelled (cache-free Get) — cached real code compared by correspondence; "
+          "goleveldb snapshots trusted; scans of historical views drop empty-valued keys (known finding F3b).",
+  "technique": "Lean 4 refinement proof (induction over commits) + differential correspondence on op sequences",
+ },
+ "C06": {
+  "text": "Kernel-checked: the undo patch recorded at commit restores the previous state for every key (rollback_exact), "
+          "popping a whole branch returns to the fork point and committing the other branch ends in the state of a node "
+          "that only saw that branch (branch_switch); tied to ldbManager by the pop-heavy vdb stream with views opened "
+          "before the switch and re-read after it.",
+  "design_ref": "§3 C06",
+  "note": "State-level theorems; pool and consensus-statistics clauses are correspondence only.",
+  "technique": "Lean 4 proof (induction) + differential correspondence on op sequences",
+ },
  "C12": {
   "text": "Kernel-checked theorems over the Go-faithful model of getTargetByDifficulty / greaterDifficulty / "
           "DifficultyToPlasma / FussedAmountToPlasma: threshold = 2^64 - 2^64/d for every 2 <= d < 2^64, comparison = "
